@@ -11,7 +11,7 @@ type In struct {
 	HTML   string `json:"html"`
 	User   string `json:"user,omitempty"` // user-origin style sheet
 	Engine string `json:"engine,omitempty"`
-	Kind   string `json:"kind"` // "ow-table" | "pair-table" | "deco-table" | "unit-table" | "dim-table" | "random"
+	Kind   string `json:"kind"` // "ow-table" | "pair-table" | "deco-table" | "unit-table" | "dim-table" | "blank-table" | "random"
 
 	Rules     []Rule `json:"rules"`                // every @page rule, author sheet first (in order), then user sheet
 	RootBreak string `json:"root_break,omitempty"` // break-before of the root element: "", left, right, recto, verso
